@@ -22,16 +22,19 @@ EXTENDS DTScan, DTNames, TLC, Json, IOUtils
 Cases == JsonDeserialize("cases.json")
 
 VARIABLES tid,     \* index of the case
+          sk,      \* which of the case's sources (spellings of one template) is being compiled
+          done,    \* outcomes of the sources compiled so far
           ctl,     \* control stack of P / B / C frames
           ret,     \* return register
           outc,    \* outcome: running / ok(prog) / err
           scans    \* log of tag searches  <<lim, start, s, e>>  (s = -1: none)
 
-vars == <<tid, ctl, ret, outc, scans>>
+vars == <<tid, sk, done, ctl, ret, outc, scans>>
 
 Case == Cases[tid]
-Src  == Case.src
-Syn  == Case.syn
+Src  == Case.srcs[sk].src
+Syn  == Case.srcs[sk].syn
+Bad  == Case.srcs[sk].bad
 
 Top       == ctl[Len(ctl)]
 PopC(c)   == SubSeq(c, 1, Len(c) - 1)
@@ -83,7 +86,7 @@ SErr      == [err |-> TRUE, exc |-> "SyntaxError", msg |-> "invalid expression"]
 POk(r)    == [err |-> FALSE, r |-> r]
 
 \* the expression texts Python's parser rejects are supplied with the case (trusted primitive)
-BadExpr(e) == \E i \in 1..Len(Case.bad) : Case.bad[i] = Strip(e)
+BadExpr(e) == \E i \in 1..Len(Bad) : Bad[i] = Strip(e)
 
 RECURSIVE PP(_, _, _)
 PP(a, r, parms) ==
@@ -186,6 +189,8 @@ Split(s0) ==
 (* tag constructors: the normal form of the compiled tag, or an error *)
 
 Ok(item) == [err |-> FALSE, item |-> item]
+\* the options of a tag without the keys that only carry the reference (captured in ref)
+SansRef(r) == SelectSeq(r, LAMBDA e : e.k \notin {"", "name", "expr"})
 W_VAR == <<118, 97, 114, 32>>
 FMT_S == <<115>>
 
@@ -198,7 +203,7 @@ BuildSimple(cmd, args0, fmt) ==
         IF n.err THEN n ELSE
         IF Len(p.r) = 1 /\ fmt = FMT_S THEN Ok([t |-> "v", ref |-> n.ref, h |-> FALSE])
         ELSE IF Len(p.r) = 2 /\ fmt = FMT_S /\ HasKey(p.r, "html_quote") THEN Ok([t |-> "v", ref |-> n.ref, h |-> TRUE])
-        ELSE Ok([t |-> "var", ref |-> n.ref, args |-> p.r, fmt |-> fmt])
+        ELSE Ok([t |-> "var", ref |-> n.ref, args |-> SansRef(p.r), fmt |-> fmt])
     ELSE \* call, return
         LET p == PP(args0, <<>>, NEParms) IN
         IF p.err THEN p ELSE
@@ -260,7 +265,7 @@ BuildIn(bl) ==
     ELSE LET e1 == IF Len(bl) = 2 THEN ElseName(bl[2].args, FALSE, RefText(n.ref), "name in else does not match in")
                    ELSE [err |-> FALSE] IN
     IF e1.err THEN e1
-    ELSE Ok([t |-> "in", batch |-> batch, ref |-> n.ref, args |-> r, body |-> bl[1].sec,
+    ELSE Ok([t |-> "in", batch |-> batch, ref |-> n.ref, args |-> SansRef(r), body |-> bl[1].sec,
              else |-> IF Len(bl) = 2 THEN <<bl[2].sec>> ELSE <<>>])
 
 RECURSIVE LetBinds(_)
@@ -301,7 +306,7 @@ BuildBlock(cmd, bl) ==
            LET p == PP(bl[1].args, <<>>, WithParms) IN
            IF p.err THEN p ELSE
            LET n == NameParam(p.r, TRUE, "name") IN
-           IF n.err THEN n ELSE Ok([t |-> "with", ref |-> n.ref, args |-> p.r, body |-> bl[1].sec])
+           IF n.err THEN n ELSE Ok([t |-> "with", ref |-> n.ref, args |-> SansRef(p.r), body |-> bl[1].sec])
       [] cmd = "raise" ->
            LET p == PP(bl[1].args, <<>>, RaiseParms) IN
            IF p.err THEN p ELSE
@@ -376,14 +381,14 @@ NoRet   == [k |-> "none"]
 \* parse_error(mess, tag, text, start): the tag named and the offset whose line is reported
 Fail(exc, msg, tlo, thi, loc) == [k |-> "err", exc |-> exc, msg |-> msg, tlo |-> tlo, thi |-> thi, loc |-> loc]
 
-PFrame(lim, pos) == [k |-> "P", lim |-> lim, pos |-> pos, res |-> <<>>]
-TextItem(lo, hi) == [t |-> "text", s |-> Sl(Src, lo, hi), lo |-> lo, hi |-> hi]
-Spanned(item, lo, hi) == item @@ [lo |-> lo, hi |-> hi]
+PFrame(lim, pos) == [k |-> "P", lim |-> lim, pos |-> pos, from |-> pos, res |-> <<>>, sp |-> <<>>]
+TextItem(lo, hi) == [t |-> "text", s |-> Sl(Src, lo, hi)]
+Span(lo, hi)     == <<lo, hi>>
 
 Log(lim, start, m) == Append(scans, <<lim, start, IF m.found THEN m.s ELSE -1, IF m.found THEN m.e ELSE -1>>)
 
-Init == /\ tid \in 1..Len(Cases)
-        /\ ctl = <<PFrame(Len(Cases[tid].src), 0)>>
+Init == /\ tid \in 1..Len(Cases) /\ sk = 1 /\ done = <<>>
+        /\ ctl = <<PFrame(Len(Cases[tid].srcs[1].src), 0)>>
         /\ ret = NoRet /\ outc = Running /\ scans = <<>>
 
 Stop(o) == /\ outc' = o /\ UNCHANGED <<ctl, ret>>
@@ -395,15 +400,18 @@ PStep ==
            m == Search(Syn, Src, f.lim, f.pos) IN
        /\ scans' = Log(f.lim, f.pos, m)
        /\ IF ~m.found THEN
-              LET res == IF f.pos < f.lim THEN Append(f.res, TextItem(f.pos, f.lim)) ELSE f.res IN
-              IF Len(ctl) = 1 THEN /\ outc' = [k |-> "ok", prog |-> res] /\ ctl' = <<>> /\ ret' = NoRet
-              ELSE /\ ctl' = PopC(ctl) /\ ret' = [k |-> "res", v |-> res] /\ UNCHANGED outc
+              LET res == IF f.pos < f.lim THEN Append(f.res, TextItem(f.pos, f.lim)) ELSE f.res
+                  sp  == IF f.pos < f.lim THEN Append(f.sp, Span(f.pos, f.lim)) ELSE f.sp IN
+              IF Len(ctl) = 1 THEN /\ outc' = [k |-> "ok", prog |-> res, spans |-> sp] /\ ctl' = <<>> /\ ret' = NoRet
+              ELSE /\ ctl' = PopC(ctl) /\ ret' = [k |-> "res", v |-> res, sp |-> sp, from |-> f.from, to |-> f.lim]
+                   /\ UNCHANGED outc
           ELSE
               LET pt == ParseTag(m, "", <<>>) IN
               IF pt.err THEN Stop(Fail(pt.exc, pt.msg, m.s, m.e, m.s))
-              ELSE LET res == IF f.pos < m.s THEN Append(f.res, TextItem(f.pos, m.s)) ELSE f.res IN
+              ELSE LET res == IF f.pos < m.s THEN Append(f.res, TextItem(f.pos, m.s)) ELSE f.res
+                       sp  == IF f.pos < m.s THEN Append(f.sp, Span(f.pos, m.s)) ELSE f.sp IN
                    IF pt.cmd \in BlockCmds THEN
-                       /\ ctl' = Append(SetTop([f EXCEPT !.res = res]),
+                       /\ ctl' = Append(SetTop([f EXCEPT !.res = res, !.sp = sp]),
                                         [k |-> "B", lim |-> f.lim, pos |-> SkipEol(Src, f.lim, m.e),
                                          stlo |-> m.s, sthi |-> m.e, sargs |-> pt.args, sa |-> pt.args,
                                          cmd |-> pt.cmd, tname |-> pt.cmd,
@@ -412,16 +420,17 @@ PStep ==
                        /\ UNCHANGED <<ret, outc>>
                    ELSE LET b == BuildSimple(pt.cmd, pt.args, pt.fmt) IN
                         IF b.err THEN Stop(Fail(b.exc, b.msg, m.s, m.e, m.s))
-                        ELSE /\ ctl' = SetTop([f EXCEPT !.res = Append(res, Spanned(b.item, m.s, m.e)), !.pos = m.e])
+                        ELSE /\ ctl' = SetTop([f EXCEPT !.res = Append(res, b.item), !.sp = Append(sp, Span(m.s, m.e)),
+                                                        !.pos = m.e])
                              /\ UNCHANGED <<ret, outc>>
-    /\ UNCHANGED tid
+    /\ UNCHANGED <<tid, sk, done>>
 
 \* parse: "start = self.parse_block(...)" returned
 PResume ==
     /\ outc.k = "run" /\ ctl # <<>> /\ Top.k = "P" /\ ret.k = "blk"
-    /\ ctl' = SetTop([Top EXCEPT !.res = Append(Top.res, ret.item), !.pos = ret.pos])
+    /\ ctl' = SetTop([Top EXCEPT !.res = Append(Top.res, ret.item), !.sp = Append(Top.sp, ret.span), !.pos = ret.pos])
     /\ ret' = NoRet
-    /\ UNCHANGED <<tid, outc, scans>>
+    /\ UNCHANGED <<tid, sk, done, outc, scans>>
 
 \* parse_block: one iteration of "while 1" up to the point where the section is parsed
 BStep ==
@@ -444,7 +453,7 @@ BStep ==
                                                                 coname |-> pt.coname]]),
                                      PFrame(m.s, f.sstart))
                     /\ UNCHANGED <<ret, outc>>
-    /\ UNCHANGED tid
+    /\ UNCHANGED <<tid, sk, done>>
 
 \* parse_block: the section has been parsed
 BSection ==
@@ -459,16 +468,16 @@ BSection ==
        ELSE LET b == BuildBlock(f.cmd, blocks) IN
             IF b.err THEN /\ outc' = Fail(b.exc, b.msg, f.stlo, f.sthi, f.stlo) /\ UNCHANGED <<ctl, ret>>
             ELSE /\ ctl' = PopC(ctl)
-                 /\ ret' = [k |-> "blk", pos |-> start, item |-> Spanned(b.item, f.stlo, start)]
+                 /\ ret' = [k |-> "blk", pos |-> start, item |-> b.item, span |-> Span(f.stlo, start)]
                  /\ UNCHANGED outc
-    /\ UNCHANGED <<tid, scans>>
+    /\ UNCHANGED <<tid, sk, done, scans>>
 
 \* parse_block / parse_close: the nested parse_close returned
 SkipResume ==
     /\ outc.k = "run" /\ ctl # <<>> /\ Top.k \in {"B", "C"} /\ ret.k = "pos"
     /\ ctl' = SetTop([Top EXCEPT !.pos = ret.v])
     /\ ret' = NoRet
-    /\ UNCHANGED <<tid, outc, scans>>
+    /\ UNCHANGED <<tid, sk, done, outc, scans>>
 
 \* parse_close: one iteration
 CStep ==
@@ -487,9 +496,18 @@ CStep ==
                ELSE IF pt.cmd = "" /\ pt.coname = ""
                     THEN /\ ctl' = PopC(ctl) /\ ret' = [k |-> "pos", v |-> m.e] /\ UNCHANGED outc
                ELSE /\ ctl' = SetTop([f EXCEPT !.pos = m.e]) /\ UNCHANGED <<ret, outc>>
+    /\ UNCHANGED <<tid, sk, done>>
+
+\* the next spelling of the same template (C07)
+NextSource ==
+    /\ outc.k # "run" /\ sk < Len(Case.srcs)
+    /\ done' = Append(done, [o |-> outc, scans |-> scans])
+    /\ sk' = sk + 1
+    /\ ctl' = <<PFrame(Len(Case.srcs[sk + 1].src), 0)>>
+    /\ ret' = NoRet /\ outc' = Running /\ scans' = <<>>
     /\ UNCHANGED tid
 
-Next == PStep \/ PResume \/ BStep \/ BSection \/ SkipResume \/ CStep
+Next == PStep \/ PResume \/ BStep \/ BSection \/ SkipResume \/ CStep \/ NextSource
 
 Spec == Init /\ [][Next]_vars
 
@@ -540,13 +558,13 @@ RL1(it, env) ==
       [] it.t = "call" -> IF it.ref.k = "name" /\ Defined(env, it.ref.n) THEN Out(<<>>) ELSE Un
       [] it.t = "comment" -> Out(<<>>)
       [] it.t = "in" -> IF it.ref.k = "name" /\ Defined(env, it.ref.n) /\ ValOf(env, it.ref.n).k = "list"
-                           /\ ~it.batch /\ Len(it.args) = 1
+                           /\ ~it.batch /\ it.args = <<>>
                         THEN LET n == ValOf(env, it.ref.n).n IN
                              IF n = 0 THEN (IF it.else = <<>> THEN Out(<<>>) ELSE RL(it.else[1], env))
                              ELSE LET b == RL(it.body, env) IN IF b.un THEN Un ELSE Out(Rep(b.s, n))
                         ELSE Un
       [] it.t = "with" -> IF it.ref.k = "name" /\ Defined(env, it.ref.n) /\ ValOf(env, it.ref.n).k = "obj"
-                             /\ Len(it.args) = 1
+                             /\ it.args = <<>>
                           THEN RL(it.body, env) ELSE Un
       [] it.t = "let" -> LET e == LetEnv(it.binds, env) IN IF e.un THEN Un ELSE RL(it.body, e.env)
       [] it.t = "try" -> LET b == RL(it.body, env) IN
@@ -561,23 +579,23 @@ RL1(it, env) ==
 ---------------------------------------------------------------------------
 (* properties of the machine *)
 
-Done == outc.k # "run"
+Done == outc.k # "run" /\ sk = Len(Case.srcs)
 
 \* every frame only moves forward (termination: each search consumes at least one character)
 FrameProgress ==
-    [][(Len(ctl') = Len(ctl) /\ ctl # <<>> /\ ctl'[Len(ctl)].k = Top.k) => ctl'[Len(ctl)].pos >= Top.pos]_vars
+    [][(sk' = sk /\ Len(ctl') = Len(ctl) /\ ctl # <<>> /\ ctl'[Len(ctl)].k = Top.k) => ctl'[Len(ctl)].pos >= Top.pos]_vars
 
-\* the searches of one frame start where the previous tag ended (or after the skipped line end)
 RECURSIVE Tiles(_, _, _)
-Tiles(items, lo, hi) ==          \* the items' spans partition [lo, hi) in order
-    IF items = <<>> THEN lo = hi
-    ELSE Head(items).lo = lo /\ Head(items).hi >= lo /\ Tiles(Tail(items), Head(items).hi, hi)
+Tiles(sp, lo, hi) ==             \* the spans partition [lo, hi) in order
+    IF sp = <<>> THEN lo = hi
+    ELSE Head(sp)[1] = lo /\ Head(sp)[2] >= lo /\ Tiles(Tail(sp), Head(sp)[2], hi)
 
-TextVerbatim(items) == \A i \in 1..Len(items) :
-                          items[i].t = "text" => items[i].s = Sl(Src, items[i].lo, items[i].hi) /\ items[i].s # <<>>
-
-\* C01 at the model level: the top-level literals are exactly the source minus tags and skipped line ends
-Tiling == outc.k = "ok" => Tiles(outc.prog, 0, Len(Src)) /\ TextVerbatim(outc.prog)
+\* C01 at the model level: the items of every parsed text (top level and every section) tile it in
+\* order, and a literal item is exactly the source slice of its span
+Verbatim(items, sp) == \A i \in 1..Len(items) :
+                          items[i].t = "text" => items[i].s = Sl(Src, sp[i][1], sp[i][2]) /\ items[i].s # <<>>
+Tiling == /\ outc.k = "ok" => Tiles(outc.spans, 0, Len(Src)) /\ Verbatim(outc.prog, outc.spans)
+          /\ ret.k = "res" => Tiles(ret.sp, ret.from, ret.to) /\ Verbatim(ret.v, ret.sp)
 
 \* C06 at the model level: an error names a tag of the source and the line is that of its first character
 ErrLocated == outc.k = "err" /\ outc.exc = "ParseError" =>
@@ -585,16 +603,25 @@ ErrLocated == outc.k = "err" /\ outc.exc = "ParseError" =>
                  /\ outc.loc = outc.tlo
 OnlyTwoErrors == outc.k = "err" => outc.exc \in {"ParseError", "SyntaxError"}
 
-LineOf(p) == 1 + CountC(Sl(Src, 0, p), NL)
+\* C07 at the model level: all spellings of one abstract template compile to the same program
+SameProgram == (Done /\ Case.same) =>
+                 /\ outc.k = "ok"
+                 /\ \A i \in 1..Len(done) : done[i].o.k = "ok" /\ done[i].o.prog = outc.prog
+
+LineOfIn(src, p) == 1 + CountC(Sl(src, 0, p), NL)
+
+OutJson(j, o, sc) ==
+    IF o.k = "ok"
+    THEN LET r == IF Case.same THEN Un ELSE RL(o.prog, Case.env) IN
+         [k |-> "ok", prog |-> o.prog, scans |-> sc, un |-> r.un, out |-> r.s]
+    ELSE [k |-> "err", exc |-> o.exc, msg |-> o.msg, tlo |-> o.tlo, thi |-> o.thi,
+          line |-> LineOfIn(Case.srcs[j].src, o.loc), scans |-> sc]
 
 Export ==
     Done =>
-      PrintT(ToJson(
-        IF outc.k = "ok"
-        THEN LET r == RL(outc.prog, Case.env) IN
-             [tid |-> tid, k |-> "ok", prog |-> outc.prog, scans |-> scans,
-              un |-> r.un, out |-> r.s]
-        ELSE [tid |-> tid, k |-> "err", exc |-> outc.exc, msg |-> outc.msg, tlo |-> outc.tlo, thi |-> outc.thi,
-              line |-> LineOf(outc.loc), scans |-> scans]))
+      PrintT(ToJson([tid |-> tid,
+                     outs |-> [j \in 1..Len(Case.srcs) |->
+                                 IF j <= Len(done) THEN OutJson(j, done[j].o, done[j].scans)
+                                 ELSE OutJson(j, outc, scans)]]))
 
 =============================================================================
